@@ -44,6 +44,40 @@ Definition lockset_ok (members : string -> list (string * mkind)) (t : list acce
 Fixpoint index_of (v : string) (l : list (string * mkind)) : option nat :=
   match l with [] => None | (k, _) :: r => if String.eqb v k then Some 0 else option_map S (index_of v r) end.
 
+(* ---------------------------------------------------------------- wake-up discipline
+   The LTS below treats a condition-variable wait as enabled exactly when its predicate holds, i.e. it ASSUMES that no
+   wake-up is lost.  That is a property of the source: in every public method, an operation that can make the wait
+   predicate true -- a push on the container, a write of a flag the predicate reads -- is followed, in the same method,
+   by a notification of the condition variable: notify_one suffices after a push (one item, one waiter), notify_all is
+   required after a flag write (every waiter must be released). *)
+Definition wait_reads (l : list cop) : list string :=
+  flat_map (fun o => match o with WaitUntil _ r => r | _ => [] end) l.
+Definition wait_conds (l : list cop) : list string :=
+  flat_map (fun o => match o with WaitUntil c _ => [c] | _ => [] end) l.
+
+Definition notified (all : bool) (c : string) (l : list cop) : bool :=
+  existsb (fun o => match o with NotifyAll c' => String.eqb c c' | NotifyOne c' => negb all && String.eqb c c' | _ => false end) l.
+
+Fixpoint wake_ok (members : list (string * mkind)) (reads conds : list string) (l : list cop) : bool :=
+  match l with
+  | [] => true
+  | PushBack :: r => forallb (fun c => notified false c r) conds && wake_ok members reads conds r
+  | Write v :: r =>
+      (match kind_in v members with
+       | Some KContainer => true                      (* container writes: the push itself is the PushBack op *)
+       | _ => negb (existsb (String.eqb v) reads) || forallb (fun c => notified true c r) conds
+       end) && wake_ok members reads conds r
+  | _ :: r => wake_ok members reads conds r
+  end.
+
+Definition is_public (cls name : string) : bool := negb (String.eqb name cls) && negb (String.eqb name ("~" ++ cls)).
+
+Definition wake_discipline (cls : string) (members : list (string * mkind)) (methods : list (string * list cop)) : bool :=
+  let reads := flat_map (fun m => wait_reads (snd m)) methods in
+  let conds := flat_map (fun m => wait_conds (snd m)) methods in
+  negb (match conds with [] => true | _ => false end) &&
+  forallb (fun m => negb (is_public cls (fst m)) || wake_ok members reads conds (snd m)) methods.
+
 (* ---------------------------------------------------------------- LTS *)
 Inductive wpc := WLoop | WWait | WGot (i : N) | WHandling (i : N) | WDone.
 Inductive dpc := DAlive | DFlagSet | DJoin (k : nat) | DJoined.   (* DJoin k: woken, the first k workers joined *)
